@@ -151,6 +151,11 @@ def run(rep):
             continue
         calls = [n for n in walk(f.body) if n.get("k") == "Call" and n.get("fn") == want[0]]
         ok = len(calls) == 1 and "rule::Rule" in (calls[0].get("gen") or []) and show(calls[0]["args"][0]) == want[1]
+        # nothing touches the input before it is handed to serde: no other call receives it, it is never borrowed mutably or reassigned
+        pid_ = strip_ref(f.thir["params"][0]["pat"]).get("id")
+        touched = [show(n)[:50] for n in walk(f.body) if (n.get("k") == "Call" and n is not (calls[0] if calls else None) and any(q.base_var(a_) == pid_ for a_ in n.get("args") or []))
+                   or (n.get("k") == "Borrow" and n.get("mut") and q.var_id(n["arg"]) == pid_) or (n.get("k") in ("Assign", "AssignOp") and q.base_var(n["lhs"]) == pid_)]
+        ok = ok and not touched
         rep.check(ok, "ENTRY", "ENTRY/" + nm, f.sp, "%s deserialises a Rule from its argument with serde_yaml (same Deserialize impl)" % nm.split("::")[-1], show(f.body)[:80])
     ld = F.fn("rule::Rule::load")
     rep.check(ld is not None and "Rule::from_str(Deref::deref(contents))" in show(ld.body), "ENTRY", "ENTRY/load", ld.sp if ld else "-", "load = read file then from_str", show(ld.body)[:80] if ld else "-")
@@ -175,7 +180,7 @@ def run(rep):
     # "rules that were optimised before being serialised": the reloaded rule is the unoptimised one, so its verdicts equal the optimised
     # rule's only if the passes preserve verdicts; the structural rules about matcher rebuilding are shared with C01/C07
     import core
-    core.import_rules(rep, "c01", {"REWRITE-CONST", "PASS-ARMS"})
+    core.import_rules(rep, "c01", {"REWRITE-CONST", "PASS-ARMS", "LINEAR"})
     core.import_rules(rep, "c07", {"FLAG"})
     rep.floor("T-SERDE-OUT", 3)
     rep.floor("T-SERDE-IN", 4)
